@@ -337,6 +337,9 @@ def reader_record_step(crate):
                 if not P.prove(ex, res, o, z3.Implies(z3.Not(hv_ok), z3.And(z3.Not(isok), ex.get_discr(o, lw).t == BV64(1))),
                                "invalid header: error, the header is remembered for skipping"):
                     break
+                if not P.prove(ex, res, o, z3.Implies(z3.Not(hv_ok), pos2 == pos + hsize),
+                               "invalid header: the reader stands right behind that header (the skip logic adds meta and data size to this position)"):
+                    break
                 P.cover(ex, res, o, z3.Not(hv_ok), "invalid header remembered")
         if i_rv is not None:
             rv_ok = ex.get_discr(o, evs[i_rv][3]).t == BV64(0)
@@ -637,3 +640,72 @@ def writer_revalidates(crate, N=2):
             P.cover(ex, res, o, z3.And(z3.Not(isok), z3.Not(cmps[-1][2])), "mismatch reported")
         P.cover(ex, res, o, z3.And(isok, z3.Not(has)), "validation off")
     return P.finish(ex, res, ["all cached records re-validated", "mismatch reported", "validation off"])
+
+
+def reader_skip_position(crate):
+    """C16: BlobReader::skip_wrong_record_data: the reader moves to position + data_size + meta_size of the remembered
+    damaged header (position being right behind that header), the file is positioned there, the skip is refused when no
+    damaged header is remembered, on overflow, or when the target is at or beyond the end of the file."""
+    res = P.ObResult("reader_skip_position")
+    fn = crate.method("BlobReader", "skip_wrong_record_data")
+    res.functions = ["BlobReader::skip_wrong_record_data + closures", "RecordHeader::{data_size,meta_size}"]
+    res.bounds = "one call, arbitrary position / length / header sizes, remembered header present or absent, seek may fail"
+
+    def h_seek(ex_, st_, frame, t, nf, args, dty):
+        r = ex_.fresh(dty, st_, "seek")
+        st_.events.append(("seek", nf, args[1], r))
+        return [(r, None)]
+    ex = P.mk_executor(crate, cap=2, loop_bound=4, inline=INLINE_TOOLS, extra_summaries=[(r"^<(std::fs::)?File as (std::io::)?Seek>::seek$", h_seek)])
+    st = State()
+    rd = Obj("tools::blob_reader::BlobReader")
+    pos, ln = z3.BitVec("position", 64), z3.BitVec("len", 64)
+    pi = crate.field_index("BlobReader", "position")
+    rd.fields[(None, pi)] = Sym(pos, "u64")
+    rd.fields[(None, crate.field_index("BlobReader", "len"))] = Sym(ln, "u64")
+    lw = Obj("std::option::Option<record::record::Header>")
+    has = z3.BitVec("damaged_header_remembered", 64)
+    st.pc.append(z3.Or(has == BV64(0), has == BV64(1)))
+    lw.discr = Sym(has, "isize")
+    h = P.mk_header(crate, "bad")
+    hf = P.record_header_fields(crate)
+    msz = z3.BitVec("bad_msz", 64)
+    h.fields[(None, hf["meta_size"])] = Sym(msz, "u64")
+    lw.fields[("Some", 0)] = h
+    rd.fields[(None, crate.field_index("BlobReader", "latest_wrong_header"))] = lw
+    rc = st.new_cell(rd)
+    outs = _sync_run(ex, st, fn, [Ref(rc, (), True, "&mut BlobReader")])
+    res.paths = len(outs)
+    dsz = P.hdr(crate, h, "data_size")
+    W = 66
+    tgt_w = z3.ZeroExt(2, pos) + z3.ZeroExt(2, dsz) + z3.ZeroExt(2, msz)
+    fits = z3.ULT(tgt_w, z3.ZeroExt(2, ln))
+    for o in outs:
+        if o.status in ("infeasible", "unwind"):
+            continue
+        if o.status != "returned":
+            if not P.prove(ex, res, o, z3.BoolVal(False), "no panic (%s)" % o.note):
+                break
+            continue
+        isok = ex.get_discr(o, o.result).t == BV64(0)
+        pos2 = o.mem[rc].fields[(None, pi)].t
+        seeks = [e for e in o.events if e[0] == "seek"]
+        if not P.prove(ex, res, o, z3.Implies(isok, z3.And(has == BV64(1), fits)), "Ok only with a remembered header and a target strictly inside the file (no wrap-around)"):
+            break
+        if not P.prove(ex, res, o, z3.Implies(isok, pos2 == pos + dsz + msz), "new position = position + data_size + meta_size of the damaged header"):
+            break
+        if not P.prove(ex, res, o, z3.Implies(z3.Not(isok), pos2 == pos), "a refused skip leaves the position alone"):
+            break
+        if seeks:
+            sp = seeks[0][2]
+            spt = sp.fields[(None, 0)].t if isinstance(sp, Obj) and (None, 0) in sp.fields else None
+            if spt is not None and not P.prove(ex, res, o, spt == pos + dsz + msz, "the file is positioned at the same target"):
+                break
+            if not P.prove(ex, res, o, isok == (ex.get_discr(o, seeks[0][3]).t == BV64(0)), "the seek's outcome is returned"):
+                break
+        else:
+            if not P.prove(ex, res, o, z3.Not(isok), "Ok => the file was repositioned"):
+                break
+        P.cover(ex, res, o, isok, "skipped")
+        P.cover(ex, res, o, z3.And(z3.Not(isok), has == BV64(1), z3.Not(fits)), "target beyond the end refused")
+        P.cover(ex, res, o, has == BV64(0), "nothing remembered")
+    return P.finish(ex, res, ["skipped", "target beyond the end refused", "nothing remembered"])
